@@ -68,13 +68,18 @@ Inductive stmt :=
 | SPop                             (* s.step = s.stepStack.Pop()        *)
 | SFound (ev : event) (off : Z)    (* s.foundAt(s.curIndex+off, ev)     *)
 | SAddCur (dz : Z)                 (* s.curIndex += dz                  *)
-| SIf (c : cond) (t e : list stmt)
+| SIf (c : cond) (t e : stmt)
+| SSeq (a b : stmt)                 (* a; b *)
+| SSkip
 | SOracle (k : okind)              (* n, je := read…WithJsc(); je→return; n>0 → cur += n-1 *)
 | SRetNil
 | SRetErr (where_ expected : string)  (* return s.japiErrorUnexpectedChar(where, expected) *)
 | SRetErrBasic (msg : string)         (* return s.japiErrorBasic(msg)   *)
 | SRetCall (st : state)               (* return st(s, c)                *)
 | SRetRedispatch.                     (* return s.step(s, c)            *)
+
+(* a Go block: statements in sequence *)
+Definition block (l : list stmt) : stmt := fold_right SSeq SSkip l.
 
 Definition N_eqb_list (a b : list N) : bool :=
   (fix go (a b : list N) : bool :=
